@@ -564,7 +564,18 @@ func uncountedSource(v ssa.Value, at *ssa.BasicBlock, seen map[ssa.Value]bool) s
 				case "getFresh", "read", "load":
 					return v // a cache lookup result: the cache's own reference, not counted
 				}
-				return uncountedFromHelper(f, x.Index, seen)
+				// what the caller knows here about the call's boolean results (`k, ok := helper(); if ok { return k }`)
+				assume := map[int]bool{}
+				if refs := call.Referrers(); refs != nil {
+					for _, r := range *refs {
+						if ex, isEx := r.(*ssa.Extract); isEx && ex.Index != x.Index && ex.Type().String() == "bool" {
+							if val, known := knownBool(ex, at); known {
+								assume[ex.Index] = val
+							}
+						}
+					}
+				}
+				return uncountedFromHelperAssuming(f, x.Index, seen, assume)
 			}
 		}
 		return v
@@ -601,7 +612,7 @@ func uncountedSource(v ssa.Value, at *ssa.BasicBlock, seen map[ssa.Value]bool) s
 // phiEdgeFeasible: the k-th incoming edge of phi is consistent with the branch facts known at block `at`.
 func phiEdgeFeasible(phi *ssa.Phi, k int, at *ssa.BasicBlock) bool {
 	pred := phi.Block().Preds[k]
-	known := factsAt(at)
+	known := append(append([]Fact{}, factsAt(at)...), assumedFacts...)
 	var efs []Fact
 	efs = append(efs, edgeFacts(pred, phi.Block())...)
 	efs = append(efs, factsAt(pred)...)
@@ -615,13 +626,42 @@ func phiEdgeFeasible(phi *ssa.Phi, k int, at *ssa.BasicBlock) bool {
 	return true
 }
 
+// assumedFacts: what the caller knows about the other results of the helper call under analysis (e.g. `ok` is true where
+// the key is used); consulted by phiEdgeFeasible while the helper's returns are examined.
+var assumedFacts []Fact
+
 // uncountedFromHelper: result #k of helper h can be a key that did not pass tracked()/newCachedCryptoKey().
 func uncountedFromHelper(h *ssa.Function, k int, seen map[ssa.Value]bool) ssa.Value {
+	return uncountedFromHelperAssuming(h, k, seen, nil)
+}
+
+// uncountedFromHelperAssuming: the same, where the caller knows the boolean results listed in assume (index → value).
+func uncountedFromHelperAssuming(h *ssa.Function, k int, seen map[ssa.Value]bool, assume map[int]bool) ssa.Value {
 	for _, r := range returnsOf(h) {
 		if k >= len(r.Results) {
 			continue
 		}
-		if b := uncountedSource(returnedValue(r, k), r.Block(), seen); b != nil {
+		saved := assumedFacts
+		feasible := true
+		for j, want := range assume {
+			if j >= len(r.Results) {
+				continue
+			}
+			rv := returnedValue(r, j)
+			if kc, isC := constOf(rv); isC {
+				if (kc.ExactString() == "true") != want {
+					feasible = false
+				}
+				continue
+			}
+			assumedFacts = append(append([]Fact{}, assumedFacts...), normFact(Fact{V: rv, True: want})...)
+		}
+		var b ssa.Value
+		if feasible {
+			b = uncountedSource(returnedValue(r, k), r.Block(), seen)
+		}
+		assumedFacts = saved
+		if b != nil {
 			return b
 		}
 	}
